@@ -35,7 +35,7 @@ KEYWORDS = {"end", "at", "in", "as", "fix", "fun", "if", "let", "match", "return
             "Z", "nat", "bool", "list", "option", "unit", "res", "negb", "sumZ", "zlen", "nonempty", "existsb",
             "forallb", "fold_left", "foldM", "for_ctl", "while_loop", "mapM", "lctl", "LNext", "LBreak", "LReturn",
             "py_round_div", "py_ceil_div", "py_trunc_div", "py_floordiv", "py_mod", "py_idx", "py_pop",
-            "py_append_last", "py_mul_list", "py_slice", "py_max_list", "py_min_list", "py_range", "py_enumerate",
+            "py_append_last", "py_append_at", "py_mul_list", "py_slice", "py_max_list", "py_min_list", "py_range", "py_enumerate",
             "py_unpack2", "py_unpack3", "py_unpack4", "CELL_WIDTHS", "py_str_int", "py_qdiv", "qltb", "q_zero",
             "Q", "Qmake", "Qplus", "Qminus", "Qmult", "Qdiv", "Qopp", "Qmin", "Qmax", "Qceiling", "Qle_bool", "Qeq_bool", "inject_Z",
             # constructors in scope (a binder with such a name would be read as a pattern)
@@ -268,6 +268,17 @@ def walk_stmts(stmts):
                 yield from walk_stmts(getattr(s, f))
 
 
+def mutated_base(call):
+    """`x.append(..)`, `x.pop()`, `x[i].append(..)` -> 'x' (the local whose value changes), else None"""
+    f = call.func
+    if isinstance(f, ast.Attribute) and f.attr in ("append", "pop"):
+        if isinstance(f.value, ast.Name):
+            return f.value.id
+        if f.attr == "append" and isinstance(f.value, ast.Subscript) and isinstance(f.value.value, ast.Name):
+            return f.value.value.id
+    return None
+
+
 def target_names(t):
     if isinstance(t, ast.Name):
         return [t.id]
@@ -406,9 +417,8 @@ class FT:
                 fail(self.node, f"{name} is both a bound method/function alias and a variable")
         for s in walk_stmts(body):
             for c in ast.walk(s):
-                if (isinstance(c, ast.Call) and isinstance(c.func, ast.Attribute) and c.func.attr in ("append", "pop")
-                        and isinstance(c.func.value, ast.Name)):
-                    self.mutated.add(c.func.value.id)
+                if isinstance(c, ast.Call) and mutated_base(c):
+                    self.mutated.add(mutated_base(c))
         for p in params:
             if p in self.mutated:
                 fail(self.node, f"parameter {p} is mutated (caller-visible effect)")
@@ -426,9 +436,8 @@ class FT:
                 if isinstance(c, ast.Call):
                     if isinstance(c.func, ast.Name) and c.func.id in self.alias:
                         add(self.alias[c.func.id][1])
-                    if (isinstance(c.func, ast.Attribute) and c.func.attr in ("append", "pop")
-                            and isinstance(c.func.value, ast.Name)):
-                        add(c.func.value.id)
+                    if mutated_base(c):
+                        add(mutated_base(c))
 
         def go(ss):
             for s in ss:
@@ -880,6 +889,18 @@ class FT:
                 hi = f"(Some {x})"
             return f"(py_slice {c} {lo} {hi})", t
         c, t = self.ex(node.value, env, B)
+        rt = resolve(t)
+        if not isinstance(rt, TVar) and rt[0] == "tuple":
+            try:
+                k = ast.literal_eval(s)
+            except Exception:
+                k = None
+            n = len(rt[1])
+            if not isinstance(k, int) or isinstance(k, bool) or not (-n <= k < n):
+                fail(node, "index of a tuple that is not a constant in range")
+            k %= n          # t[k] on a (Named)Tuple = projection of field k
+            ps = ", ".join("t2_f" if j == k else "_" for j in range(n))
+            return f"(let '({ps}) := {c} in t2_f)", rt[1][k]
         i, ti = self.ex(s, env, B)
         unify(ti, INT, node)
         et = self.elem_type(t, node)
@@ -1306,7 +1327,11 @@ class FT:
                 fail(s, f"{f.id} may denote a list that is no longer {base}")
         elif isinstance(f, ast.Attribute) and f.attr == "append" and isinstance(f.value, ast.Name):
             kind, base = "append", f.value.id
-        if kind not in ("append", "append_last"):
+        elif (isinstance(f, ast.Attribute) and f.attr == "append" and isinstance(f.value, ast.Subscript)
+              and isinstance(f.value.value, ast.Name) and not isinstance(f.value.slice, ast.Slice)):
+            # xs[i].append(v): functional update of the nested list (inner lists are never shared: fresh_elem)
+            kind, base = "append_at", f.value.value.id
+        if kind not in ("append", "append_last", "append_at"):
             fail(s, "expression statement outside the subset")
         if base not in env.vars or env.vars[base] is POISON:
             fail(s, f"append to unknown list {base}")
@@ -1322,6 +1347,17 @@ class FT:
                     env.valid[a] = False
             return wrap(B + [(b, f"({b} ++ [{c}])", False)], rest(env))
         env.vars[base] = unify(env.vars[base], TList(TList(ty)), s)
+        if kind == "append_at":
+            idx = f.value.slice
+            if (isinstance(idx, ast.UnaryOp) and isinstance(idx.op, ast.USub) and isinstance(idx.operand, ast.Constant)
+                    and idx.operand.value == 1):
+                return wrap(B + [(b, f"py_append_last {b} {c}", True)], rest(env))
+            Bi = []
+            i, ti = self.ex(idx, env, Bi)
+            unify(ti, INT, s)
+            if Bi or any(isinstance(n, ast.Name) and n.id == base for n in ast.walk(idx)):
+                fail(s, "index of the nested append is not a plain value")
+            return wrap(B + [(b, f"py_append_at {b} {i} {c}", True)], rest(env))
         return wrap(B + [(b, f"py_append_last {b} {c}", True)], rest(env))
 
     def st_Pass(self, s, env, ctx, rest):
